@@ -61,6 +61,8 @@ def sites(prog):
 def prepare(cfg):
     if cfg.get('mutant'):
         _mutate(cfg['mutant'])
+    if 'prog' not in cfg:
+        return
     hG.CFG.clear()
     hG.CFG.update({k: v for k, v in cfg.items() if k not in ('mutant', 'negate')})
     hG.CFG['options'] = {'strict': False}
@@ -142,6 +144,63 @@ def H(i0: int, i1: int, i2: int, i3: int, i4: int, i5: int,
 
 
 def explain(cfg, *args):
+    if 'prog' not in cfg:
+        return {'args': list(args)}
     b = hG.bind(args[:6], args[6:])
     return {'template': STATE['text'], 'strict': STATE['strict'], 'offsets': STATE['offsets'],
             'engine_reference': hG.explain(hG.CFG, *args)}
+
+
+# ---- strictness given to a loader reaches the templates it creates --------------------------------------------
+LOADER_PAGE = '<div><p tal:condition="cv">${1 +}</p>ok</div>'
+LOADER_MAIN = '<div tal:define="t load: page.pt">${structure: t.render(cv=cv)}</div>'
+
+
+def via_loader(strict: bool, cv: bool, how: int, given: bool) -> bool:
+    """
+    pre: 0 <= how < 4
+    post: _
+    """
+    # strict=True / strict=False / not given at all (the default is strict), passed to PageTemplateLoader or to a
+    # PageTemplateFile that pulls the page in with ``load:``; the page has an invalid expression under a condition
+    import os
+    import shutil
+    import tempfile
+    from chameleon import PageTemplateFile, PageTemplateLoader
+    from vlib.notrace import NoTracing
+    strict = True if strict else False          # decided under the tracer: concrete from here on
+    given = True if given else False
+    reached = True if cv else False
+    how = [h for h in range(4) if how == h][0]
+    with NoTracing():
+        is_strict = strict or not given
+        kw = {'strict': strict} if given else {}
+        d = tempfile.mkdtemp(prefix='verif-c19-')
+        try:
+            for name, text in (('page.pt', LOADER_PAGE), ('main.pt', LOADER_MAIN), ('page.txt', LOADER_PAGE)):
+                with open(os.path.join(d, name), 'w') as f:
+                    f.write(text)
+            try:
+                if how == 0:
+                    out = PageTemplateLoader(d, **kw).load('page.pt').render(cv=reached)
+                elif how == 1:
+                    out = PageTemplateLoader([d], '.pt', **kw)['page'].render(cv=reached)
+                elif how == 2:
+                    out = PageTemplateFile(os.path.join(d, 'main.pt'), **kw).render(cv=reached)
+                else:
+                    out = PageTemplateLoader(d, **kw).load('page.txt', 'text').render(cv=reached)
+                got = ('ok', out if isinstance(out, str) else out.decode('utf-8'))
+            except ExpressionError as exc:
+                got = ('invalid', str(exc.token))
+            except Exception as exc:
+                got = ('exc', type(exc).__name__)
+        finally:
+            shutil.rmtree(d, True)
+        if is_strict or reached or how == 3:
+            # (a text template has no conditions: the expression is always reached)
+            ok = got == ('invalid', '1 +')
+        elif how == 2:
+            ok = got == ('ok', '<div><div>ok</div></div>')
+        else:
+            ok = got == ('ok', '<div>ok</div>')
+    return (not ok) if CFG.get('negate') else ok
